@@ -251,8 +251,18 @@ class Sim:
         return self._ostate[key]
 
     def oracle_propagate(self, i, ms):
+        """Direct propagation on the pristine node to a date that an iteration has just yielded (or that lies inside the model
+        range): it has to work - "each yielded state being equal to what a direct propagation to that date returns"."""
         with self.oracle:
-            r = self.ostate(i, ms)
+            try:
+                r = self.ostate(i, ms)
+            except Exception as e:  # noqa
+                self.ctx.violate(
+                    "value-equals-direct-propagation",
+                    self.fp(kind="direct_propagation_fails", prop_kind=self.kind(i), exc=type(e).__name__),
+                    f"a direct propagation of pool object {i} ({self.kind(i)}) to epoch{ms:+.3f} ms on a pristine node raised {type(e).__name__}: {e}, although an iteration yields that date",
+                )
+                raise
             return world.vec(r), r.form.name, r.frame.name
 
     def oracle_stored(self, i, ms):
@@ -263,8 +273,14 @@ class Sim:
             o = self.oracle_obj(i)._orbits[k]
             return world.vec(o), o.form.name, o.frame.name
 
+    def order_of(self, i):
+        """Number of points an interpolation of ephemeris i needs: 2 for the linear method, the order for Lagrange."""
+        if self.specs[i].get("interp") == "linear":
+            return 2
+        return self.kn.get("ephem_order", 8)
+
     def can_interp(self, i):
-        return len(self.table_ms(i)) >= self.kn.get("ephem_order", 8)
+        return len(self.table_ms(i)) >= self.order_of(i)
 
     def table_ms(self, i):
         """Stored dates of ephemeris i (ms from its start) taken from the oracle's fresh copy."""
@@ -553,7 +569,7 @@ class Sim:
         # ---- model
         if kind == "ephem":
             tab = self.table_ms(i)
-            t.expected, t.raises_after = (list(tab), None) if call["call"] == "for" else model_ephem_iter(call, tab, self.kn.get("ephem_order", 8))
+            t.expected, t.raises_after = (list(tab), None) if call["call"] == "for" else model_ephem_iter(call, tab, self.order_of(i))
         else:
             t.expected, t.raises_after = model_orbit_iter(call)
         # ---- listeners
@@ -648,7 +664,7 @@ class Sim:
             ctx.probe("interleaved_shared_listener_interference")
             t.state = "interfered"
             return
-        if kind == "ephem" and getattr(t, "lidx", None) and isinstance(exc, ValueError) and "impossible to interpolate" in str(exc) and len(self.table_ms(t.obj)) < self.kn.get("ephem_order", 8):
+        if kind == "ephem" and getattr(t, "lidx", None) and isinstance(exc, ValueError) and "impossible to interpolate" in str(exc) and len(self.table_ms(t.obj)) < self.order_of(t.obj):
             # locating an event between two stored points needs an interpolation that a table shorter than the interpolation order
             # cannot give: the refusal (C09: refused, not extrapolated / not guessed) is legitimate, also when the samples themselves
             # are the stored points
@@ -914,7 +930,7 @@ class Sim:
         call = dict(op["call"])
         if kind == "ephem":
             tab = self.table_ms(i)
-            exp, exp_exc = model_ephem_iter(call, tab, self.kn.get("ephem_order", 8))
+            exp, exp_exc = model_ephem_iter(call, tab, self.order_of(i))
         else:
             exp, exp_exc = model_orbit_iter(call)
         with self.node:
